@@ -16,7 +16,7 @@ import random
 
 from simkit.driver import Check, base_result
 from ref import codec as C
-from checks.worlda import (WorldA, bystander_for, bystander_cost, draw_knobs, draw_sched, NODE_HOST, NODE_REALM,
+from checks.worlda import (WorldA, draw_clock_jumps, schedule_clock_jumps, bystander_for, bystander_cost, draw_knobs, draw_sched, NODE_HOST, NODE_REALM,
                            PEER_HOST, PEER_REALM)
 
 TAG = 99999
@@ -145,7 +145,7 @@ class C04(Check):
         if big:
             bursts = [{"msgs": list(range(n)), "style": rng.choice(["whole", "boundaries", "random"]), "ncuts": 3,
                        "cutseed": rng.getrandbits(30), "gap": 0.0, "at": 0.0}]
-        return {"mode": mode, "msgs": msgs, "bursts": bursts, "max_steps": 6_000_000 + 30000 * n,
+        return self._later_additions(rng, index, sweep or big, {"mode": mode, "msgs": msgs, "bursts": bursts, "max_steps": 6_000_000 + 30000 * n,
                 "bystander": bystander_for(index),
                 "consumer_early": rng.random() < 0.5,
                 # the peer ends the connection with a DPR right behind its last message: everything it sent
@@ -154,7 +154,29 @@ class C04(Check):
                 "outbound": rng.choice([0, 0, 2, 5]),
                 "sched": draw_sched(rng), "knobs": draw_knobs(rng),
                 "net": {"max_latency": rng.choice([0.0005, 0.003, 0.02])},
-                "watchdog": 30, "horizon": 120.0}
+                "watchdog": 30, "horizon": 120.0})
+
+    @staticmethod
+    def _later_additions(rng, index, special, scn):
+        # later additions draw from a generator of their own (the stream above stays what it was)
+        rng2 = random.Random(rng.getrandbits(48))
+        scn["clock_jumps"] = draw_clock_jumps(rng2, span=0.3, p=0.15)
+        if not special and rng2.random() < 0.2:
+            # a slow sender: the pieces of one message arrive SECONDS apart (longer than any polling interval
+            # or wait timeout inside the node); coarse ticks keep those seconds cheap
+            b = rng2.choice(scn["bursts"])
+            if b["style"] not in ("aligned4096", "sweep"):
+                b["style"] = "random"
+                b["ncuts"] = rng2.choice([1, 1, 2])
+                b["long_gap"] = rng2.choice([1.15, 1.6, 2.6, 5.0])
+                later = 0.0
+                for o in scn["bursts"]:
+                    if o["at"] > b["at"]:
+                        # what follows comes after the slow message (same stream, so it cannot overtake it anyway)
+                        later = max(later, 3 * b["long_gap"])
+                        o["at"] += 3 * b["long_gap"]
+                scn["knobs"]["STATE_MACHINE_TICKER"] = max(scn["knobs"]["STATE_MACHINE_TICKER"], 0.002)
+        return scn
 
     def shrink(self, scn):
         n = len(scn["msgs"])
@@ -290,6 +312,7 @@ class C04(Check):
                 w.call("submitter", submit)
             t0 = sim.now + 0.01
             last_send = [t0]
+            schedule_clock_jumps(sim, scn.get("clock_jumps"))
             for b in scn["bursts"]:
                 be = [encs[j] for j in b["msgs"]]
                 cuts = self.cuts_for(b, be)
@@ -310,7 +333,10 @@ class C04(Check):
                         stats["coalesced"] += 1
                 stats["segments"] += len(segs) - 1
                 delays = None
-                if b.get("gap"):
+                if b.get("long_gap"):
+                    delays = [w.net.cfg.min_latency + i * b["long_gap"] for i in range(len(cuts) + 1)]
+                    stats["long_gaps"] = stats.get("long_gaps", 0) + len(cuts)
+                elif b.get("gap"):
                     # spread the pieces out, but keep the whole burst within ~2 simulated seconds
                     g = min(b["gap"], 2.0 / (len(cuts) + 1))
                     delays = [w.net.cfg.min_latency + i * g for i in range(len(cuts) + 1)]
